@@ -66,7 +66,7 @@ def _create(ctx, vip, rule, epm):
     nz = N.Normaliser()
     creators = []
     for cls in (vip, rule, epm):
-        for func in cls.methods.values():
+        for func in cls.live_methods():
             if any(isinstance(s, ast.Call) and
                    K.callee_text(s) in ('os.symlink', 'fs.symlink_safe',
                                         'os.link')
@@ -246,7 +246,7 @@ def _in_network(ctx, vip):
     inner = vip.methods.get('_alloc')
     ctx.require(inner is not None, 'VipMgr._alloc')
     n = 0
-    for func in vip.methods.values():
+    for func in vip.live_methods():
         graph = None
         for sub in K.walk_no_nested(func.node):
             if isinstance(sub, ast.Call) and K.is_meth(sub, '_alloc') and \
@@ -330,7 +330,7 @@ def _paths(ctx, vip, rule):
                 fn[N.txt(sub.targets[0])] = K.callee_text(sub.value)
         uses_rel = any(isinstance(s, ast.Call) and
                        K.callee_text(s) == 'os.path.relpath'
-                       for f in cls.methods.values()
+                       for f in cls.live_methods()
                        for s in K.walk_no_nested(f.node))
         ok = len(fn) == 2 and len(set(fn.values())) == 1
         ctx.ob('C14.6', init, None, ok or not uses_rel,
